@@ -194,6 +194,7 @@ func concClient(p *Pkg, c *Case) string {
 						fill(in[k], &fillCtx{r: r, mode: "header"}, 0)
 						if in[k].Kind() == reflect.Interface || in[k].Kind() == reflect.Struct {
 							snapshotBodies(in[k])
+							armCloseErrors(in[k], r)
 						}
 					}
 				}
